@@ -85,6 +85,31 @@ def build_rx():
     e = os.path.join(VERIF, 'engines'); r = os.path.join(VERIF, 'ref')
     return build_single('rx', os.path.join(e, 'rx_main.cpp'), [os.path.join(e, 'jsonw.hpp'), os.path.join(r, 'regex.hpp'), os.path.join(r, 'lr1.hpp')], RX_FLAGS)
 
+SCALE_FLAGS = ['-std=c++17', '-O1', '-DCTPG_VERIF', '-fno-access-control', '-I' + os.path.join(REPO, 'include'), '-I' + os.path.join(VERIF, 'engines')]
+
+def build_scale(tier):
+    """E-SCALE: one executable per family instance (gen/scale_gen.py), built in parallel and cached by content. Returns {family: exe}
+    or ('COMPILE-FAIL', text)."""
+    gen = os.path.join(VERIF, 'gen', 'scale_gen.py')
+    r = sh([sys.executable, gen, 'list', tier])
+    if r.returncode != 0: harness_error('scale generator failed: ' + r.stderr)
+    fams = r.stdout.split()
+    deps = [os.path.join(VERIF, 'engines', 'scale_main.hpp'), os.path.join(VERIF, 'engines', 'jsonw.hpp'), os.path.join(VERIF, 'ref', 'lr1_dyn.hpp'), gen]
+    srcdir = os.path.join(BUILD, 'scale_src%s' % (('-%d' % os.getpid()) if os.environ.get('VERIF_REPO') else '')); os.makedirs(srcdir, exist_ok=True)
+    def one(f):
+        src = os.path.join(srcdir, f + '.cpp')
+        tmp = src + '.new%d' % os.getpid()
+        g = sh([sys.executable, gen, 'emit', f, tmp])
+        if g.returncode != 0: return f, ('COMPILE-FAIL', 'generator: ' + g.stderr)
+        os.replace(tmp, src)
+        return f, build_single('scale_' + f, src, deps, SCALE_FLAGS)
+    out = {}
+    with ThreadPoolExecutor(max_workers=NCPU) as ex:
+        for f, e in ex.map(one, fams):
+            if isinstance(e, tuple): return e
+            out[f] = e
+    return out
+
 BIG_DEFS = ['-DREF_MAXT=12', '-DREF_MAXR=24', '-DREF_MAXNT=8', '-DREF_MAXL=6']
 
 def build_gram(setname):
